@@ -7,7 +7,7 @@ CONSTANTS
   CacheCap = 0
   Universe <- UB
   H0 = 1
-  Peers = {1, 2}
+  Peers = {1}
   Fine = FALSE
   UseRing = FALSE
   MaxWritten = 99
